@@ -105,6 +105,9 @@ func genC18(thorough bool) func(t *rapid.T) Case {
 			lines = append(lines[:at:at], append([]string{bad}, lines[at:]...)...)
 		}
 		c.Text = strings.Join(lines, "")
+		if rapid.IntRange(0, 5).Draw(t, "bom") == 5 {
+			c.Text = "\xef\xbb\xbf" + c.Text // a UTF-8 byte order mark: part of the first line for both parsers
+		}
 		c.Entry = rapid.SampledFrom([]string{"stream", "stream", "file", "file-missing", "file-eacces"}).Draw(t, "entry")
 		c.Policy = rapid.SampledFrom([]string{"documented", "drain"}).Draw(t, "policy")
 		c.ReaderChunk = rapid.SampledFrom([]int{0, 1, 5, 17, 64}).Draw(t, "reader_chunk")
